@@ -15,6 +15,16 @@ package main
 //                              Do Go are called on anything
 //   cloneStringChanCollectors  in how many functions a `chan string` (the construct channel) is received from
 //   cloneStringChanSenders     whether anything is sent on a `chan string`
+//
+// and four ORDER facts (booleans) the Step system's invariants rest on; each is about statements of one statement list:
+//   cloneAddBeforeGo           every `go` that starts a worker (a function or literal whose body calls Done) is immediately
+//                              preceded, in the same statement list, by a call `….Add(…)`
+//   cloneDeferDoneFirst        the first statement of every such worker body is `defer ….Done()`
+//   cloneCloseAfterWait        every `close(ch)` of a `chan string` has, earlier in its statement list, a statement that waits
+//                              (calls `….Wait()` itself or calls a function of the file that does, transitively); a deferred
+//                              close counts when a waiting statement follows it
+//   cloneCollectorBeforeWait   every `go` that starts a collector (a function receiving from a `chan string`) has a waiting
+//                              statement later in its statement list and none before it
 
 import (
 	"fmt"
@@ -227,6 +237,225 @@ func cloneFacts() (string, error) {
 			collectors++
 		}
 	}
+	// ---- order facts
+	hasCall := func(n ast.Node, name string) bool {
+		found := false
+		ast.Inspect(n, func(m ast.Node) bool {
+			if call, ok := m.(*ast.CallExpr); ok {
+				if sel, ok := call.Fun.(*ast.SelectorExpr); ok && sel.Sel.Name == name {
+					found = true
+				}
+			}
+			return true
+		})
+		return found
+	}
+	waitsMemo := map[string]int{} // 0 unknown, 1 in progress / no, 2 yes
+	var funcWaits func(name string) bool
+	var nodeWaits func(n ast.Node) bool
+	nodeWaits = func(n ast.Node) bool {
+		if hasCall(n, "Wait") {
+			return true
+		}
+		found := false
+		ast.Inspect(n, func(m ast.Node) bool {
+			if call, ok := m.(*ast.CallExpr); ok {
+				if id, ok := call.Fun.(*ast.Ident); ok && funcWaits(id.Name) {
+					found = true
+				}
+			}
+			return true
+		})
+		return found
+	}
+	funcWaits = func(name string) bool {
+		if funcs[name] == nil {
+			return false
+		}
+		if waitsMemo[name] != 0 {
+			return waitsMemo[name] == 2
+		}
+		waitsMemo[name] = 1
+		for _, fn := range funcs[name] {
+			if nodeWaits(fn.Body) {
+				waitsMemo[name] = 2
+				return true
+			}
+		}
+		return false
+	}
+	// element types of channels by name, file-wide (parameters, make, struct fields): good enough to recognise `chan string`
+	chanElem := map[string]string{}
+	ast.Inspect(file, func(n ast.Node) bool {
+		switch x := n.(type) {
+		case *ast.Field:
+			if ct, ok := x.Type.(*ast.ChanType); ok {
+				for _, nm := range x.Names {
+					chanElem[nm.Name] = typeText(fset, ct.Value)
+				}
+			}
+		case *ast.AssignStmt:
+			for i, rhs := range x.Rhs {
+				if call, ok := rhs.(*ast.CallExpr); ok {
+					if id, ok := call.Fun.(*ast.Ident); ok && id.Name == "make" && len(call.Args) > 0 {
+						if ct, ok := call.Args[0].(*ast.ChanType); ok && i < len(x.Lhs) {
+							if l, ok := x.Lhs[i].(*ast.Ident); ok {
+								chanElem[l.Name] = typeText(fset, ct.Value)
+							}
+						}
+					}
+				}
+			}
+		}
+		return true
+	})
+	isStringChan := func(e ast.Expr) bool {
+		switch x := e.(type) {
+		case *ast.Ident:
+			return chanElem[x.Name] == "string"
+		case *ast.SelectorExpr:
+			return chanElem[x.Sel.Name] == "string"
+		}
+		return false
+	}
+	receivesString := func(body ast.Node) bool {
+		found := false
+		ast.Inspect(body, func(m ast.Node) bool {
+			switch x := m.(type) {
+			case *ast.UnaryExpr:
+				if x.Op == token.ARROW && isStringChan(x.X) {
+					found = true
+				}
+			case *ast.RangeStmt:
+				if isStringChan(x.X) {
+					found = true
+				}
+			}
+			return true
+		})
+		return found
+	}
+	// the bodies a `go` statement starts: a literal, or the functions of that name in the file
+	targets := func(g *ast.GoStmt) []*ast.BlockStmt {
+		switch f := g.Call.Fun.(type) {
+		case *ast.FuncLit:
+			return []*ast.BlockStmt{f.Body}
+		case *ast.Ident:
+			var out []*ast.BlockStmt
+			for _, fn := range funcs[f.Name] {
+				out = append(out, fn.Body)
+			}
+			return out
+		case *ast.SelectorExpr:
+			var out []*ast.BlockStmt
+			for _, fn := range funcs[f.Sel.Name] {
+				out = append(out, fn.Body)
+			}
+			return out
+		}
+		return nil
+	}
+	isCloseOfStringChan := func(call *ast.CallExpr) bool {
+		id, ok := call.Fun.(*ast.Ident)
+		return ok && id.Name == "close" && len(call.Args) == 1 && isStringChan(call.Args[0])
+	}
+	addBeforeGo, deferDoneFirst, closeAfterWait, collectorBeforeWait := true, true, true, true
+	checkList := func(list []ast.Stmt) {
+		for i, st := range list {
+			switch x := st.(type) {
+			case *ast.GoStmt:
+				worker, collector := false, false
+				for _, body := range targets(x) {
+					if hasCall(body, "Done") {
+						worker = true
+						first := len(body.List) > 0
+						if first {
+							d, ok := body.List[0].(*ast.DeferStmt)
+							sel, ok2 := (*ast.SelectorExpr)(nil), false
+							if ok {
+								sel, ok2 = d.Call.Fun.(*ast.SelectorExpr)
+							}
+							first = ok && ok2 && sel.Sel.Name == "Done"
+						}
+						if !first {
+							deferDoneFirst = false
+						}
+					}
+					if receivesString(body) {
+						collector = true
+					}
+				}
+				if worker {
+					okAdd := false
+					if i > 0 {
+						if es, ok := list[i-1].(*ast.ExprStmt); ok {
+							if call, ok := es.X.(*ast.CallExpr); ok {
+								if sel, ok := call.Fun.(*ast.SelectorExpr); ok && sel.Sel.Name == "Add" {
+									okAdd = true
+								}
+							}
+						}
+					}
+					if !okAdd {
+						addBeforeGo = false
+					}
+				}
+				if collector {
+					before, after := false, false
+					for j, other := range list {
+						if j < i && nodeWaits(other) {
+							before = true
+						}
+						if j > i && nodeWaits(other) {
+							after = true
+						}
+					}
+					if before || !after {
+						collectorBeforeWait = false
+					}
+				}
+			case *ast.ExprStmt:
+				if call, ok := x.X.(*ast.CallExpr); ok && isCloseOfStringChan(call) {
+					waited := false
+					for j := 0; j < i; j++ {
+						if nodeWaits(list[j]) {
+							waited = true
+						}
+					}
+					if !waited {
+						closeAfterWait = false
+					}
+				}
+			case *ast.DeferStmt:
+				if isCloseOfStringChan(x.Call) {
+					waited := false
+					for j := i + 1; j < len(list); j++ {
+						if nodeWaits(list[j]) {
+							waited = true
+						}
+					}
+					if !waited {
+						closeAfterWait = false
+					}
+				}
+			}
+		}
+	}
+	for name := range reach {
+		for _, fn := range funcs[name] {
+			ast.Inspect(fn.Body, func(n ast.Node) bool {
+				switch x := n.(type) {
+				case *ast.BlockStmt:
+					checkList(x.List)
+				case *ast.CaseClause:
+					checkList(x.Body)
+				case *ast.CommClause:
+					checkList(x.Body)
+				}
+				return true
+			})
+		}
+	}
 	list := func(m map[string]bool) string {
 		var ks []string
 		for k := range m {
@@ -246,6 +475,10 @@ func cloneFacts() (string, error) {
 	fmt.Fprintf(&b, "def cloneSyncCalls : List String := %s\n\n", list(calls))
 	fmt.Fprintf(&b, "def cloneStringChanCollectors : Nat := %d\n\n", collectors)
 	fmt.Fprintf(&b, "def cloneStringChanSenders : Bool := %v\n\n", senders)
+	fmt.Fprintf(&b, "def cloneAddBeforeGo : Bool := %v\n\n", addBeforeGo)
+	fmt.Fprintf(&b, "def cloneDeferDoneFirst : Bool := %v\n\n", deferDoneFirst)
+	fmt.Fprintf(&b, "def cloneCloseAfterWait : Bool := %v\n\n", closeAfterWait)
+	fmt.Fprintf(&b, "def cloneCollectorBeforeWait : Bool := %v\n\n", collectorBeforeWait)
 	b.WriteString("end PolyVerif.Gen\n")
 	return b.String(), nil
 }
